@@ -44,7 +44,7 @@ IMPORTS = 'Require Import SF.Prelude SF.Value SF.Dtype SF.Missing SF.MissingChec
 RULE = ('kernel strata: util.binary_transition on EVERY Boolean vector of length <= 8 (quick) / 11 (thorough) and per line of every 2-D Boolean array of the listed shapes; '
         'util.slices_from_targets on every Boolean vector of length <= 6 / 9 x direction x limit 0..3, all called directly. '
         'api strata, exhaustive: Series (float / object-None / object-NaN / datetime64[D]) every missing pattern of length <= 5 / 7 x every operation x limit 0..n; '
-        'Frames 1 x n float columns (n <= 4 quick, <= 5 thorough, 1 x 6 with limit 2) every pattern x EVERY block layout (zoo.layouts_for) x limit 0..min(n,3) (thorough 0..n) x forward/backward on axis 1; '
+        'Frames 1 x n float columns (n <= 4 quick, <= 5 thorough, 1 x 6 with limit 2) every pattern x EVERY block layout (zoo.layouts_for) x limit 0..min(n,2) (thorough 0..n) x forward/backward on axis 1; '
         '2 x 3 (thorough also 2 x 4, 3 x 3) every pattern x every layout x limits x directions x both axes + leading/trailing; mixed frames (float/object/datetime between int/bool/str '
         'columns) every pattern x every layout x all operations; 2 x 2 x label sub/supersets for fillna(Frame); 3 cells x label subsets for fillna(Series). '
         'Then a seeded sample of 1 x 5 (quick) and a seeded random stream of frames up to 4 x 8 with random kinds/layout/limit, and 8 malformed calls. '
@@ -572,7 +572,7 @@ def frame_cases(ctx):
         kinds = ['F'] * n
         for layout in layouts(kinds):
             for mask in masks(1, kinds):
-                yield from frame_directional(ctx, kinds, mask, layout, range(0, (min(n, 3) if quick else n) + 1))
+                yield from frame_directional(ctx, kinds, mask, layout, range(0, (min(n, 2) if quick else n) + 1))
     if quick:
         # 1 x 5: a seeded sample of (pattern, layout, limit, direction)
         kinds = ['F'] * 5
@@ -616,7 +616,7 @@ def frame_cases(ctx):
             for mask in masks(3, kinds):
                 yield from frame_directional(ctx, kinds, mask, layout, (1,), axes=(1,))
     # (3) mixed dtypes: float / object / datetime columns between never-missing int / bool / str columns
-    mixes = ['IFO', 'FSD', 'BDF'] if quick else ['IFO', 'FSD', 'BDF', 'OIF', 'FIFO', 'DFSB', 'OFDI', 'NFI', 'FFOO', 'IFFD']
+    mixes = ['IFO', 'FSD'] if quick else ['IFO', 'FSD', 'BDF', 'OIF', 'FIFO', 'DFSB', 'OFDI', 'NFI', 'FFOO', 'IFFD']
     for mix in mixes:
         kinds = list(mix)
         for layout in layouts(kinds):
